@@ -601,3 +601,69 @@ Proof.
   destruct sl; [reflexivity|]. destruct rf as [|rf]; [|reflexivity].
   destruct H as [H|[H|[H|H]]]; try discriminate; lia.
 Qed.
+
+(* ---------- Down after two consecutive failed attempts, handshakes in between or not ---------- *)
+Lemma fails_consec_acc_app : forall l1 l2 acc,
+  fails_consec_acc acc (l1 ++ l2) = fails_consec_acc (fails_consec_acc acc l1) l2.
+Proof.
+  induction l1 as [|e l1 IH]; intros; cbn [List.app fails_consec_acc]; auto.
+  destruct e as [a| | | |o ok| |a|n m c]; auto. destruct o, ok; auto.
+Qed.
+
+Record Inv3 (s : state) : Prop := {
+  i3_sdk : sdk_fails s = false;
+  i3_round : round_fails s <= 1;
+  i3_up : isUp s = true -> fails_consec (log s) <= round_fails s
+}.
+
+Lemma Inv3_init : forall up0 a0, Inv3 (init up0 a0).
+Proof. intros. constructor; cbn; auto. Qed.
+
+Ltac fin3 :=
+  unfold step, dial_enabled, drop, handshake, close_conn, normal_reset, fail, down_block,
+         on_connect, report, close_locked, poisoned, max_conn_attempts, fails_consec in *;
+  fields; cbn; intros; rewrite ?fails_consec_acc_app; cbn [fails_consec_acc];
+  try discriminate; try reflexivity;
+  repeat match goal with H : ?x = ?x -> _ |- _ => specialize (H eq_refl) end;
+  try lia.
+
+Lemma Inv3_step : forall s e, negb (is_sdkfail e) = true -> Inv3 s -> Inv3 (step s e).
+Proof.
+  intros s e He [A B C].
+  destruct s as [up a st co rf sl lc sf lg]. fields. subst sf.
+  assert (R : rf = 0 \/ rf = 1) by lia. clear B.
+  destruct e as [o| |f|a' f|b|r|f].
+  - destruct st; [constructor; cbn; auto; lia|].
+    destruct co; [constructor; cbn; auto; lia|].
+    destruct o, up, sl, lc, R; subst rf; constructor; fin3.
+  - destruct co; [|constructor; cbn; auto; lia].
+    destruct up, R; subst rf; constructor; fin3.
+  - destruct f, st, co, up, sl, lc, R; subst rf; constructor; fin3.
+  - cbn [step]. fields. destruct (N.eqb a' a);
+    destruct f, co, up, lc, R; subst rf; constructor; fin3.
+  - destruct b; try discriminate. constructor; cbn; auto. lia.
+  - cbn [step]. fields. destruct (try_send (fun _ => send_class lc r)) as [n c].
+    constructor; fields; auto; try lia. intros. unfold fails_consec in *.
+    rewrite fails_consec_acc_app. cbn [fails_consec_acc]. auto.
+  - destruct f, st, co, up, sl, lc, R; subst rf; constructor; fin3.
+Qed.
+
+Lemma Inv3_run : forall evs s, sdk_ok evs = true -> Inv3 s -> Inv3 (run s evs).
+Proof.
+  induction evs as [|e evs IH]; intros s H I; cbn [run fold_left]; auto.
+  cbn [sdk_ok forallb] in H. apply andb_true_iff in H. destruct H as [H1 H2].
+  apply IH; auto. apply Inv3_step; auto.
+Qed.
+
+Lemma down_after_two_consecutive : forall up0 a0 evs,
+  sdk_ok evs = true ->
+  let s := run (init up0 a0) evs in
+  2 <= fails_consec (log s) -> last_report (st0 up0) (log s) = Down.
+Proof.
+  intros up0 a0 evs H s F.
+  pose proof (Inv_run up0 evs _ (Inv_init up0 a0)) as I.
+  pose proof (Inv3_run evs _ H (Inv3_init up0 a0)) as I3. fold s in I, I3.
+  destruct I as [A _ _ _]. destruct I3 as [_ R U].
+  unfold st0. destruct (last_report (if up0 then Up else Down) (log s)); auto.
+  cbn in A. specialize (U A). lia.
+Qed.
